@@ -59,7 +59,7 @@ def case_grid(case):
     dom = (nx * dx, ny * dy)
     nxe, nye, px, py = sl.padded_size(nx, ny, dom, halo)
     z, prof = sl.build_profiles("most_aniso", 3)
-    levels = [1, 3]
+    levels = [0, 3]
     rng = core.case_rng(seed, [nx, ny])
     q = rng.random((ny, nx))
     mp = (1 * dx, 2 * dy) if fp else (0.0, 0.0)
@@ -85,6 +85,14 @@ def case_grid(case):
     if gfull is None or not isinstance(full, np.ndarray) or full.shape[-2:] != (nye, nxe):
         v.append({"sub": "reference", "sig": "all-modes/shape", "msg": "all-modes call on the %dx%d periodic domain: %s" % (nxe, nye, full if gfull is None else "shape %s" % (np.shape(full[0]),))})
         return {"v": v, "nt": True, "n": cnt[0]}
+    # independent registration anchor for the reference itself: with every mode kept, the flux at the lowest node IS the
+    # (padded) source in dispersion mode, and the unit impulse at the tower cell in footprint mode
+    anchor = qp if not fp else sl.impulse(nye, nxe, py + 2, px + 1)
+    ea = float(np.abs(full[1, 0] - anchor).max() / max(np.abs(anchor).max(), 1e-300))
+    if not ea <= 1e-9:
+        v.append({"sub": "anchor", "sig": "anchor/%s" % ("footprint" if fp else "dispersion"),
+                  "msg": "nx=%d ny=%d halo=%r %s, all modes kept (padded %dx%d): the flux at the lowest node differs from %s by %.2e of its maximum - the field is not registered on the grid"
+                  % (nx, ny, halo, "footprint" if fp else "dispersion", nxe, nye, "the unit impulse at the tower cell" if fp else "the source itself", ea)})
     ntested = 0
     for nlx, nly in itertools.product(range(2, case["mhi"] + 1, 2), repeat=2):
         g, out = S(q, dom, (nlx, nly), halo, mp)
